@@ -19,7 +19,8 @@ from ..vloop import Horizon, VLoop
 
 ID = 'C09'
 W = 2  # at most W true evaluations per while_ predicate in one run
-STEP_VALUES = (None, 0, 7)
+CTX = '<ToContext()>'  # stands for an (empty) context assignment: like None it does not stop the chain
+STEP_VALUES = (None, 0, 7, CTX)
 RET_CODES = (None, 3)
 
 # AST:  ('step',) | ('ret', code) | ('if', ((block), (block)...), else_block_or_None) | ('while', block)
@@ -119,6 +120,13 @@ def name_ast(block: tuple, names: Names) -> tuple:
 ENV: Any = None
 
 
+MAX_CALLS = 120  # far more than any outline of the family can make with W true evaluations per while_
+
+
+class Runaway(KeyboardInterrupt):
+    """The chain keeps calling steps / predicates without end."""
+
+
 class _Run:
     def __init__(self, chooser: Chooser, whiles: set, int_predicates: bool = False) -> None:
         self.chooser = chooser
@@ -128,6 +136,8 @@ class _Run:
         self.int_predicates = int_predicates  # predicates answer 0 / 1 instead of False / True
 
     def predicate(self, name: str) -> bool:
+        if len(self.calls) > MAX_CALLS:
+            raise Runaway()
         if name in self.whiles and self.true_count.get(name, 0) >= W:
             value = False
         else:
@@ -138,9 +148,11 @@ class _Run:
         return int(value) if self.int_predicates else value
 
     def step(self, name: str) -> Any:
+        if len(self.calls) > MAX_CALLS:
+            raise Runaway()
         value = STEP_VALUES[self.chooser.choose([((name, v), '') for v in STEP_VALUES])]
         self.calls.append((name, value))
-        return value
+        return wc.ToContext() if value == CTX else value
 
 
 def build_class(named: tuple) -> Tuple[type, set]:
@@ -216,7 +228,7 @@ def reference(named: tuple) -> Any:
         for ins in block:
             if ins[0] == 'step':
                 value = yield ins[1]
-                if value is not None:
+                if value is not None and value != CTX:
                     raise Stop(value)
             elif ins[0] == 'ret':
                 raise Stop(ins[1])
@@ -249,6 +261,10 @@ def compare(named: tuple, calls: List[Tuple[str, Any]]) -> Tuple[Optional[str], 
         return (f'implementation stopped after {len(calls)} calls, the outline goes on with {expected}', None, False)
     except StopIteration:
         finished_at = 'end'
+        # "the value returned by the last step executed": what the last stepping call produced - the step's value if it ran
+        # a step, nothing if it only evaluated predicates (an if_ without a true branch, a while_ that is over)
+        if calls and calls[-1][0].startswith('s'):
+            result = {} if calls[-1][1] == CTX else calls[-1][1]
     except Stop as stop:
         result = stop.value
         finished_at = 'stop'
@@ -313,6 +329,12 @@ class Prop:
                     loop.drain()
                 except Horizon:
                     res.capped = True
+                except Runaway:
+                    res.capped = True
+                    res.violations.append({'clause': 'runaway', 'features': {'kinds': kinds_in(named)},
+                                           'detail': {'outline': shape(named), 'calls': env.calls[:12]}})
+                    del chooser.log[len(chooser.prefix):]  # nothing below this execution is worth expanding
+                    return res
                 mismatch, want, _ = compare(named, env.calls)
                 feats = {'kinds': kinds_in(named)}
                 if mismatch is not None:
@@ -322,12 +344,12 @@ class Prop:
                     res.violations.append({'clause': 'not-finished', 'features': dict(feats, state=str(proc.state)),
                                            'detail': {'outline': shape(named), 'calls': env.calls,
                                                       'exception': repr(proc.exception())}})
-                elif proc.result() != want or type(proc.result()) is not type(want):
+                elif proc.result() != want or type(proc.result()) is not type(want):  # noqa: E721
                     res.violations.append({'clause': 'result', 'features': feats,
                                            'detail': {'outline': shape(named), 'calls': env.calls,
                                                       'got': repr(proc.result()), 'want': repr(want)}})
                 res.transitions = len(env.calls) + 1
-                res.outcome = (tuple(env.calls), repr(proc.result()) if proc.has_terminated() else None)
+                res.outcome = (tuple(env.calls), repr(proc.result()) if proc.state == plumpy.ProcessState.FINISHED else str(proc.state))
                 res.states = {tuple(env.calls[:k]) for k in range(len(env.calls) + 1)}
                 res.nontrivial = len(env.calls) >= 2
                 res.sample = {'outline': shape(named), 'calls': [list(c) for c in env.calls],
